@@ -99,7 +99,7 @@ forward-only iterator, `none` = panic when a group starts before the previously 
 Set it to `true` once the fix is applied to /repo: the driver then answers with
 `regexPartsRepaired`, whose offset lookup does not depend on earlier lookups. -/
 
-def regexOffsetsRepaired : Bool := false
+def regexOffsetsRepaired : Bool := true
 
 def matchesOfRepaired (s : Bytes) : List Cap → Option (List RMatch)
   | [] => some []
